@@ -57,6 +57,9 @@ RAWS = [
     ("dict", {}), ("dict", {"a": "b"}), ("dict", {"k": 5}), ("none",),
     ("cmd", "nf_fin"), ("cmd", "fz_fin"), ("cmd", "nf_un"), ("cmd", "fz_un"), ("cmd", "ech_fin"), ("cmd", "ech_un"),
     ("type", "float"), ("type", "int"), ("type", "str"), ("np", "float64", 1.5), ("np", "int64", 3), ("np", "float32", 2.5), ("np", "float32", -0.75), ("np", "float16", 0.5), ("np", "uint8", 7), ("ndarray",),
+    # a command object built directly, belonging to NO program (`Cls(name, arguments)`; program defaults to None): whatever cleaning says about it,
+    # it leaves the object as it was
+    ("freecmd", "nf_un"), ("freecmd", "fz_un"), ("list", [("freecmd", "nf_un")]),
 ]
 WDS = ["none", "abs", "rel", "empty"]  # "empty": working_dir == "" (what the CLI passes for a command file given by its bare name)
 
@@ -163,6 +166,9 @@ def _mk(raw, p, base):
         return None
     if t == "cmd":
         return p.commands[raw[1]]
+    if t == "freecmd":
+        twin = p.commands[raw[1]]
+        return type(twin)("free_" + raw[1], list(twin.arguments))
     if t == "type":
         return {"float": float, "int": int, "str": str}[raw[1]]
     if t == "np":
@@ -451,7 +457,12 @@ def run(case):
         outcomes["%s:%s" % (cfg[1], oc)] = outcomes.get("%s:%s" % (cfg[1], oc), 0) + 1
         if r1[0] == "raw":
             viols.append(V("C20:%s:raw-exception:%s:%s" % (cfg[1], r1[1], raw[0]), "%s.clean(%r) raised %s: %s" % (cname, raw, r1[1], r1[2]), **tag))
-        exp = RP.expect(kind, _raw_abs(raw, base, ctx["wd"]), ctx)
+        from mpilot.commands import Command
+        free = [x for x in ([v] if raw[0] == "freecmd" else v if isinstance(v, list) else []) if isinstance(x, Command) and x.result_name.startswith("free_")]
+        exp = ("unspec",) if free else RP.expect(kind, _raw_abs(raw, base, ctx["wd"]), ctx)
+        for x in free:
+            if x.program is not None or x.is_finished or len(x.arguments) != len(p.commands[x.result_name[5:]].arguments):
+                viols.append(V("C20:%s:raw-argument-mutated:command-object" % cfg[1], "%s.clean(%r) changed the command object it was given (program now %r)" % (cname, raw, x.program), **tag))
         if exp[0] == "unspec":
             unspec += 1
         else:
@@ -485,7 +496,7 @@ def run(case):
             if _fz(r3) != _fz(r1):
                 viols.append(V("C20:%s:not-idempotent:%s" % (cfg[1], raw[0]), "%s: clean(%r) = %r but clean of that = %r" % (cname, raw, _fz(r1), _fz(r3)), **tag))
     # histories on one object
-    sub = [i for i in range(len(RAWS)) if i not in skip]
+    sub = [i for i in range(len(RAWS)) if i not in skip and "freecmd" not in repr(RAWS[i])]  # (a new program-less object per use: nothing to compare across histories)
     for a, b in itertools.product(sub, repeat=2):
         param = _make_param(cfg)
         _clean(param, _mk(RAWS[a], p, base), p)
